@@ -269,7 +269,10 @@ def _closure(types: typing.Sequence[pydsdl.CompositeType]) -> typing.List[pydsdl
 
 
 def include_path(t: pydsdl.CompositeType, ext: str) -> str:
-    return "/".join(t.full_name.split(".")[:-1] + [f"{t.short_name}_{t.version.major}_{t.version.minor}{ext}"])
+    parts = t.full_name.split(".")
+    if getattr(t, "has_parent_service", False):
+        parts = parts[:-1]  # request/response live in the header of their service
+    return "/".join(parts[:-1] + [f"{parts[-1]}_{t.version.major}_{t.version.minor}{ext}"])
 
 
 def generate(types: typing.Sequence[pydsdl.CompositeType], cpp: bool) -> str:
